@@ -138,8 +138,17 @@ func c04Burst(c *lib.Ctx, idx uint64) {
 		// The base file itself must be accepted.
 		d, i, pn := detect(orig)
 		c.EvalN(2)
-		if d != nil || i != nil || pn != "" {
-			c.Violation(orig, "base file %s is not accepted: Decode %v, CheckIntegrity %v %s", names[fi], d, i, pn)
+		if pn != "" {
+			c.Violation(orig, "base file %s: panic: %s", names[fi], pn)
+			return
+		}
+		if d != nil {
+			// Whether Decode accepts a well-formed model file is C02's subject; here the file is just not usable.
+			c.Count("base_files_not_accepted_by_decode", 1)
+			return
+		}
+		if i != nil {
+			c.Violation(orig, "Decode accepts base file %s but CheckIntegrity rejects it: %v", names[fi], i)
 			return
 		}
 		c.Count("base_files", 1)
